@@ -213,6 +213,10 @@ def tie(ctx):
                 mism.append({"case": "C07_resolver_total fails on a tie input", "pinned": c[:300]})
             if not tok:
                 mism.append({"case": "tree_ok is false on a tree produced by the real tree()", "hyp": h})
+            usep = f.get("use_sep") == "t"
+            stats["side condition of C14_columns_resolve holds (names of `use` statements on distinct lines)"] += usep
+            if not usep:
+                mism.append({"case": "use_names_separated is false on a tree produced by the real tree()", "hyp": h})
             stats["hypothesis wf_ast holds"] += wf
             stats["hypothesis no_ns_shadow holds"] += nns
             stats["hypotheses of C09_resolve_refines_modulo_ns hold (wf_ast and no_ns_shadow)"] += wf and nns
